@@ -108,10 +108,24 @@ fn drive(o: &Opts, one: fn(&[u8], usize, usize) -> Option<Vec<(String, String)>>
     let mut cases = 0u64;
     if let Some(inp) = &o.input {
         let s = unshow(&inp["seq"]);
+        if inp.contains_key("via") {
+            return Outcome { cases: 1, witness: crate::p_kmer::adaptors_min(wmax == 31, &s, inp["w"].parse().unwrap(), inp["m"].parse().unwrap()) };
+        }
         if let Some(s2) = inp.get("seq2") {
             return Outcome { cases: 1, witness: pair_runs(wmax == 31, &s, &unshow(s2), inp["w"].parse().unwrap(), inp["m"].parse().unwrap()) };
         }
         return Outcome { cases: 1, witness: one(&s, inp["w"].parse().unwrap(), inp["m"].parse().unwrap()) };
+    }
+    {
+        let mut rng = Rng(o.seed.wrapping_mul(0x2545F4914F6CDD1D) | 3);
+        for _ in 0..300 {
+            let m = 1 + rng.below(5) as usize;
+            let w = (m + rng.below(6) as usize).min(wmax);
+            let l = rng.below(60) as usize;
+            let s = random_seq(&mut rng, l, 40);
+            cases += 1;
+            if let Some(wt) = crate::p_kmer::adaptors_min(wmax == 31, &s, w, m) { return Outcome { cases, witness: Some(wt) }; }
+        }
     }
     {
         let mut rng = Rng(o.seed.wrapping_mul(0x2545F4914F6CDD1D) | 1);
